@@ -25,6 +25,15 @@ def gen(rng, tier, ds):
             qid = rng.choice([0, 0, 0, 1, 2, 7, 7, -4, 2147483647, -2147483648])
             qs.append(wc.enc_q(qid, t, gb))
         reqs.append(("b%d" % i, qs))
+    # directed: the same query several times in one batch (ids defaulted, explicit, repeated),
+    # the same expression with different group-by lists, ids in descending order
+    a1 = ("E", wc.COLS[0], b"1", 0)
+    t2 = ("O", [a1, ("N", ("E", wc.COLS[1], b"x", 0))])
+    reqs.append(("d0", [wc.enc_q(0, a1, []), wc.enc_q(0, a1, []), wc.enc_q(0, a1, [])]))
+    reqs.append(("d1", [wc.enc_q(5, t2, [wc.COLS[0]]), wc.enc_q(9, t2, [wc.COLS[0]]), wc.enc_q(0, t2, [wc.COLS[0]]), wc.enc_q(5, t2, [wc.COLS[0]])]))
+    reqs.append(("d2", [wc.enc_q(0, t2, [wc.COLS[0]]), wc.enc_q(0, t2, [wc.COLS[1]]), wc.enc_q(0, t2, []), wc.enc_q(0, t2, [wc.COLS[1], wc.COLS[0]])]))
+    reqs.append(("d3", [wc.enc_q(40, a1, []), wc.enc_q(30, t2, []), wc.enc_q(20, a1, [wc.COLS[0]]), wc.enc_q(10, t2, [])]))
+    reqs.append(("d4", [wc.enc_q(0, a1, []), wc.enc_q(1, t2, []), wc.enc_q(0, a1, []), wc.enc_q(-4, a1, [])]))
     return reqs
 
 
